@@ -105,6 +105,12 @@ def run(chk):
                 if e[0] != "call":
                     continue
                 nm = e[2] or ""
+                if nm.endswith("strip_prefix") and len(e[3]) > 1 and _deref_const(it, o, e[3][1]) == mg:
+                    # idiom: `match slice.strip_prefix(MAGIC) { Some(body) => .., None => return Err }`
+                    r = o.cons.get("ret:%d" % e[1])
+                    if r and r[0] == "varis" and r[2] == "Some":
+                        cmpk, what = k, ("strip_prefix", e[3][0])
+                    continue
                 if ("PartialEq" in nm and (nm.endswith("::eq") or nm.endswith("::ne"))) or nm.endswith("starts_with"):
                     vals = [_deref_const(it, o, a) for a in e[3]]
                     if mg in vals:
@@ -173,10 +179,17 @@ def slice_rules(chk, w, b, it, outs, mg, mlen):
             continue
         min_len = 0
         nz = forms.Normalizer(it, o)
+        stripped = {}   # symbol of the slice that remains after a successful strip_prefix(MAGIC) -> bytes stripped
         for k, e in enumerate(o.trace):
             if e[0] != "call":
                 continue
             nm = e[2] or ""
+            if nm.endswith("strip_prefix") and e[3][0][0] == "ref" and e[3][0][1][:1] == (("A", 1),) and len(e[3]) > 1:
+                c = _deref_const(it, o, e[3][1])
+                r = o.cons.get("ret:%d" % e[1])
+                if c and r and r[0] == "varis" and r[2] == "Some":
+                    stripped["ret:%d@Some.0" % e[1]] = len(c[1])
+                    min_len = max(min_len, len(c[1]))
             if nm.endswith("starts_with") and e[3][0][0] == "ref" and e[3][0][1][:1] == (("A", 1),):
                 c = _deref_const(it, o, e[3][1])
                 if c and it.resolve(o, absint.SYM("ret:%d" % e[1])) == absint.B(True):
@@ -187,13 +200,20 @@ def slice_rules(chk, w, b, it, outs, mg, mlen):
                     min_len = max(min_len, c[1])
                 if c and c[0] == "eq" and c[1][0] == "i":
                     min_len = max(min_len, c[1][1])
-            if "Index" in nm and e[3][0][0] == "ref" and e[3][0][1][:1] == (("A", 1),) and len(e[3]) > 1 and e[3][1][0] == "agg":
+            recv_off = None
+            if "Index" in nm and e[3][0][0] == "ref" and len(e[3]) > 1 and e[3][1][0] == "agg":
+                r0 = e[3][0][1][:1]
+                if r0 == (("A", 1),):
+                    recv_off = 0
+                elif r0 and r0[0][0] == "S" and r0[0][1] in stripped:
+                    recv_off = stripped[r0[0][1]]   # an index into the stripped slice, expressed in coordinates of the input
+            if recv_off is not None:
                 rng = e[3][1]
                 d = dict(rng[2])
                 bound = d.get("end") if "RangeTo" in rng[1] else d.get("start") if "RangeFrom" in rng[1] else d.get("end")
                 n_idx += 1
                 f = nz.form(bound)
-                cst = f.get((), 0)
+                cst = f.get((), 0) + recv_off
                 rest = {m: c for m, c in f.items() if m != ()}
                 kind = "RangeTo" if "RangeTo" in rng[1] else "RangeFrom" if "RangeFrom" in rng[1] else "Range"
                 key = "read_slice:index[%s:%d%s]" % (kind, cst, "+consumed" if rest else "")
@@ -206,7 +226,7 @@ def slice_rules(chk, w, b, it, outs, mg, mlen):
                            % (cst, min_len, cst), site=C.site(b, e[1]), sample={"bound": cst, "known_min_len": min_len})
                 else:
                     atoms = [m[0] for m in rest if len(m) == 1 and rest[m] == 1]
-                    dec_ok = len(rest) == 1 and atoms and "decode_from_slice(" in atoms[0] and atoms[0].endswith("@Ok.0.1") and min_len >= cst
+                    dec_ok = len(rest) == 1 and atoms and "decode_from_slice(" in atoms[0] and (atoms[0].endswith("@Ok.0.1") or atoms[0].endswith(".1")) and min_len >= cst
                     chk.ob("R07.5", key, bool(dec_ok), "range bound %s on the caller's slice is neither guarded nor the decoder's consumed size" % forms.show(f), site=C.site(b, e[1]),
                            sample={"bound": forms.show(f), "idiom": "decoder consumed-size (assumed <= remaining input)"})
                     if dec_ok and o.kind == "return":
@@ -218,11 +238,18 @@ def slice_rules(chk, w, b, it, outs, mg, mlen):
         for e in o.trace:
             if e[0] == "call" and (e[2] or "").endswith("decode_from_slice"):
                 pass
-    chk.floor("R07.5", "range indexes on the input slice", n_idx, 2)
+    any_strip = any((e[2] or "").endswith("strip_prefix") for o in outs for e in o.trace if e[0] == "call")
+    chk.floor("R07.5", "range indexes on the input slice", n_idx, 1 if any_strip else 2)
     # decode input = slice[mlen..]
     dec_in = set()
     for e, o in C.all_calls(outs, lambda e: "Index" in (e[2] or "") and e[3][0][0] == "ref" and e[3][0][1][:1] == (("A", 1),) and len(e[3]) > 1 and e[3][1][0] == "agg" and "RangeFrom" in e[3][1][1]):
         dec_in.add(forms.show(forms.Normalizer(it, o).form(dict(e[3][1][2])["start"])))
+    # idiom B: the decoder is handed the slice that strip_prefix(MAGIC) returned
+    for e, o in C.all_calls(outs, lambda e: (e[2] or "").endswith("decode_from_slice") and e[3] and e[3][0][0] == "ref" and e[3][0][1][:1] and e[3][0][1][0][0] == "S"):
+        sym = e[3][0][1][0][1]
+        for e2 in o.trace:
+            if e2[0] == "call" and (e2[2] or "").endswith("strip_prefix") and sym == "ret:%d@Some.0" % e2[1] and _deref_const(it, o, e2[3][1]) == mg and e2[3][0][0] == "ref" and e2[3][0][1][:1] == (("A", 1),):
+                dec_in.add(str(mlen))
     chk.ob("R07.6", "read_slice:payload-after-magic", str(mlen) in dec_in, "the payload is not decoded from slice[MODEL_MAGIC.len()..]: ranges %s" % sorted(dec_in), site=C.site(b))
 
 
